@@ -6,6 +6,7 @@ printed from; own precedence-climbing parse as fall-back) evaluated with the ora
 independent RPN machine run on the postfix form of the tree the library built.  Arrays are judged element-wise."""
 from __future__ import annotations
 
+import copy
 import math
 
 import numpy as np
@@ -31,6 +32,7 @@ class FormulaMonitor:
         self.ctx, self.fl = ctx, fl
         self.expected = {}  # formula text -> generator tree
         self.own = {}  # id(Function) -> own variables the workload gave it (ground truth)
+        self.engines = {}  # id(Function) -> the engine the workload says the term belongs to (its variables are the ones meant)
         self.ill_formed = set()
 
     def install(self, probe):
@@ -67,7 +69,8 @@ class FormulaMonitor:
     def _after_membership(self, args, kwargs, token, result, exc):
         fn, x = args[0], args[1]
         clash = None
-        names_e = [v.name for v in fn.engine.variables] if fn.engine else []
+        owner = self.engines.get(id(fn), fn.engine)
+        names_e = [v.name for v in owner.variables] if owner else []
         if "x" in fn.variables:
             clash = "the term's own variables contain the reserved name x"
         elif "x" in names_e:
@@ -81,8 +84,8 @@ class FormulaMonitor:
                 self.ctx.violation(f"an ambiguous variable name is not refused ({clash})", {"formula": fn.formula, "term_variables": dict(fn.variables), "engine_variables": names_e}, "ValueError", repr(exc) if exc else result)
             return
         env = {}
-        if fn.engine:
-            for v in fn.engine.variables:
+        if owner:
+            for v in owner.variables:
                 env[v.name] = v.value
         env["x"] = x
         # (own variables as the workload declared them when it knows the term, else as the term holds them)
@@ -272,6 +275,23 @@ def run(ctx):
             if "k" in variables and route < 4:
                 fn.variables["k"] = rnd.choice([0.5, 2.0, -1.25])
                 mon.own = {}
+            if i % 5 == 3 and fn.engine is not None and route < 4:
+                # the term as it arrives in a copy of its engine (used as it comes): it reads the copy's variables
+                try:
+                    source = fn.engine
+                    source.output_variables[0].terms.append(fn) if not any(t is fn for v in source.variables for t in v.terms) else None
+                    dup = source.copy() if i % 10 == 3 else copy.deepcopy(source)
+                    twin = next((t for v in dup.variables for t in v.terms if t.name == fn.name and isinstance(t, fl.Function)), None)
+                    if twin is not None:
+                        for v in source.variables:
+                            v.value = 7.0  # whatever the engine it was copied from holds meanwhile
+                        if "k" in variables:
+                            twin.variables["k"] = fn.variables["k"]
+                        fn, engine = twin, dup
+                        mon.engines = {id(twin): dup}
+                        ctx.hit("route:term of a copied engine")
+                except Exception as ex:
+                    ctx.hit(f"inconclusive:copy of an engine with a Function term: {type(ex).__name__}")
 
             def val():
                 return rnd.choice([0.0, 1.0, -1.0, 0.5, 2.0, rnd.uniform(-3, 3), rnd.uniform(-3, 3), math.nan if rnd.random() < 0.3 else 1.5, math.inf if rnd.random() < 0.3 else 0.25])
@@ -342,7 +362,7 @@ def run(ctx):
             mon.expected.pop(text2, None)
             mon.expected.pop(text, None)
             if i % 6 == 0:
-                for what, bad in ill_formed_variants(rnd, tree, " ".join(fl.Function.format_infix(text).split())):
+                for what, bad in ill_formed_variants(rnd, tree, " ".join(fl.Function.format_infix(text).split())) + [("empty formula", rnd.choice(["", " ", "  "]))]:
                     try:
                         F.parse(bad)
                         ctx.hit("skipped:injected error gives a well-formed formula")
@@ -352,7 +372,11 @@ def run(ctx):
                     mon.ill_formed.add(bad)
                     ctx.hit(f"ill-formed:{what}")
                     try:
-                        fl.Function.create("g", bad, engine)
+                        if what == "empty formula" and rnd.random() < 0.5:
+                            g = fl.Function("g", bad, engine)
+                            g.load()  # the other way in
+                        else:
+                            fl.Function.create("g", bad, engine)
                     except Exception:
                         pass
                     mon.ill_formed.discard(bad)
@@ -437,6 +461,7 @@ def run(ctx):
                         ctx.violation(f"a well-formed formula over registered operators is rejected ({type(ex).__name__})", {"formula": text}, "loaded", repr(ex)[:200])
         probe.report(ctx)
         reach.report(ctx)
+    ctx.require("route:term of a copied engine", "ill-formed:empty formula")
     ctx.require("event:formula over operators registered after other formulas were read", "event:variable names that differ only in case from functions of the formula language")
     ctx.require("hook:Function.load", "hook:Function.membership", "hook:Function.evaluate", "compare:membership:scalar (generator tree)", "compare:membership:array (generator tree)", "compare:evaluate:scalar (generator tree)", "compare:rpn of the loaded tree's postfix", "ill-formed:missing operand", "ill-formed:wrong arity", "ill-formed:unbalanced parenthesis", "name clash refused", "event:term variables changed between calls", "event:formula reloaded into the same term", "route:4", "route:5", "route:6", "event:engine variable replaced after an evaluation", "event:two terms built from one dictionary of variables", "event:formula over names in other alphabets evaluated")
     if ctx.nshards == 1:
